@@ -341,6 +341,8 @@ func Time(t *rapid.T, label string, v *spec.ValueSpec) {
 // ValueOpts tunes the value generator.
 type ValueOpts struct {
 	MaxElems int
+	// Big: now and then a collection of 9-40 elements (map growth, long blocks).
+	Big bool
 }
 
 // Value draws a value of the type.
@@ -417,6 +419,9 @@ func Value(t *rapid.T, ts spec.TypeSpec, o ValueOpts) spec.ValueSpec {
 			v.Elems = []spec.ValueSpec{}
 		default:
 			n := UniformRange(t, "len", 1, maxE)
+			if o.Big && Uniform(t, "bigslice", 12) == 0 {
+				n = UniformRange(t, "biglen", 9, 40)
+			}
 			for i := 0; i < n; i++ {
 				v.Elems = append(v.Elems, Value(t, *ts.Elem, o))
 			}
@@ -430,6 +435,10 @@ func Value(t *rapid.T, ts spec.TypeSpec, o ValueOpts) spec.ValueSpec {
 			v.Elems = []spec.ValueSpec{}
 		default:
 			n := UniformRange(t, "len", 1, maxE)
+			if o.Big && Uniform(t, "bigmap", 12) == 0 {
+				// more than eight entries: the runtime map grows beyond one group
+				n = UniformRange(t, "biglen", 9, 40)
+			}
 			seen := map[string]bool{}
 			for i := 0; i < n; i++ {
 				k := Str(t, "key")
